@@ -1,7 +1,7 @@
 // genfn translates the Go source text of selected functions of
 // <repo>/datalog to Gallina definitions over the prelude coq/Model/GoSem.v.
 //
-// usage: genfn <repo root> <output .v>
+// usage: genfn [-all] <repo root> <output .v>
 //
 // The translation is syntax-directed over a documented subset of Go
 // (/verif/notes/GENFN.md).  A construct outside the subset is an error that
@@ -25,17 +25,27 @@ var whitelist = []string{
 	"Add.Eval", "Sub.Eval", "Mul.Eval", "Div.Eval",
 	"LessThan.Eval", "LessOrEqual.Eval", "GreaterThan.Eval", "GreaterOrEqual.Eval",
 	"And.Eval", "Or.Eval", "Negate.Eval", "Parens.Eval",
-	// (C) strings, sets, equality
-	"Length.Eval", "Equal.Eval", "Prefix.Eval", "Suffix.Eval", "Regex.Eval", "Contains.Eval",
-	"Intersection.Eval", "Union.Eval",
+	// (C) strings through the table
+	"Length.Eval", "Prefix.Eval", "Suffix.Eval", "Regex.Eval",
+}
+
+// translated, but not yet proved equal to the model (Proofs/GenFnProofs.v has no
+// theorem about them): only with -all
+var unproved = []string{
+	"Equal.Eval", "Contains.Eval", "Intersection.Eval", "Union.Eval",
 }
 
 func main() {
-	if len(os.Args) != 3 {
-		fmt.Fprintln(os.Stderr, "usage: genfn <repo root> <output .v>")
+	args := os.Args[1:]
+	if len(args) > 0 && args[0] == "-all" {
+		whitelist = append(whitelist, unproved...)
+		args = args[1:]
+	}
+	if len(args) != 2 {
+		fmt.Fprintln(os.Stderr, "usage: genfn [-all] <repo root> <output .v>")
 		os.Exit(2)
 	}
-	root, outPath := os.Args[1], os.Args[2]
+	root, outPath := args[0], args[1]
 	p := loadPkg(filepath.Join(root, "datalog"))
 	tr := &Tr{p: p, infos: map[string]*FuncInfo{}, state: map[string]int{}, emitted: map[string]bool{},
 		mutMemo: map[string][]bool{}, rxMemo: map[string]int{}}
